@@ -43,6 +43,26 @@ func main() {
 		os.Exit(cmdList(repo, verif))
 	case "ssa":
 		os.Exit(cmdSSA(repo, verif, os.Args[2:]))
+	case "mods":
+		c, err := LoadCtx(repo, verif, nil)
+		if err != nil {
+			fmt.Fprintln(os.Stderr, err)
+			os.Exit(2)
+		}
+		for k, fn := range c.funcByKey {
+			for _, p := range os.Args[2:] {
+				if strings.Contains(k, p) {
+					ms := c.mods.calleeMods(fn)
+					var names []string
+					for n, kind := range ms.m {
+						names = append(names, fmt.Sprintf("%s:%d", n, kind))
+					}
+					sort.Strings(names)
+					fmt.Println(k, names)
+				}
+			}
+		}
+		os.Exit(0)
 	case "selftest":
 		os.Exit(cmdSelftest(repo, verif, os.Args[2:]))
 	default:
